@@ -192,12 +192,14 @@ theorem commit_acct (c : Lru) (h : Nat) (hA : Acct c) : Acct (c.commit h).1 := b
     simp only
     have hfree := reservedSum_filter_find c.temps h p hf
     have hle := reservedSum_filter_le c.temps h
-    rcases hr : makeSpace { c with temps := c.temps.filter (·.handle != h) } (p.written - p.reserved) with ⟨c1, r⟩
-    obtain ⟨h1, h2, h3, h4, h5, hpo, h6, h8⟩ := makeSpace_spec _ c1 _ r hr
-    simp only at h1 h2 h3 hpo
     have hbase : Acct { c with temps := c.temps.filter (·.handle != h) } := by
       intro hnp; have := hA hnp
       exact ⟨this.1, by simp only [reservedSum] at *; omega⟩
+    split
+    · exact hbase
+    rcases hr : makeSpace { c with temps := c.temps.filter (·.handle != h) } (p.written - p.reserved) with ⟨c1, r⟩
+    obtain ⟨h1, h2, h3, h4, h5, hpo, h6, h8⟩ := makeSpace_spec _ c1 _ r hr
+    simp only at h1 h2 h3 hpo
     cases r with
     | ok =>
       show Acct ((commitCore c1 p).lruInsert p.key p.written)
@@ -400,6 +402,8 @@ theorem commit_np (c : Lru) (h : Nat) : (c.commit h).1.poisoned = c.poisoned ∧
   | none => simp
   | some p =>
     simp only
+    split
+    · exact ⟨rfl, by simp⟩
     rcases hr : makeSpace { c with temps := c.temps.filter (·.handle != h) } (p.written - p.reserved) with ⟨c1, r⟩
     obtain ⟨_, _, _, _, _, hpo, _, h8⟩ := makeSpace_spec _ c1 _ r hr
     rcases h8 with rfl | rfl
